@@ -216,6 +216,9 @@ def main():
         elif c["ep"] in ("lift_residual", "lift_ode"):
             kind = "lift_by_not_int" if isinstance(c["args"]["lift_by"], str) else \
                 ("lift_by_negative" if c["args"]["lift_by"] < 0 else "lift_by_too_large")
+        elif c["ep"] == "prior_iwp_diffuse" and short_field(c["field"]) in ("mean", "std"):
+            # one root cause: from_mean_and_std never compares std with mean
+            kind = f"std_mean_mismatch.{c['fact']}"
         elif c["ep"] == "matfree_ens":
             kind = "too_few_ensembles"
         elif c["ep"] == "warn":
